@@ -34,9 +34,9 @@ func c03Alphabet(thorough bool) []string {
 		}
 	}
 	a = append(a, "disc:A", "disc:B", "reconn:A", "reconn:B", "entrm:A:1", "entadd:A:1", "entrm:B:1", "entadd:B:1")
-	shapes := []string{"limit:ack:2", "limit:noack:1", "desc:ack:2"}
+	shapes := []string{"limit:ack:2", "limit:noack:1", "desc:ack:2", "constr:ack:2"}
 	if thorough {
-		shapes = append(shapes, "limit:ack:1", "limit:noack:2", "desc:noack:1")
+		shapes = append(shapes, "limit:ack:1", "limit:noack:2", "desc:noack:1", "constr:noack:1")
 	}
 	for _, p := range peers {
 		for _, c := range clients {
